@@ -105,6 +105,12 @@ F.append(dict(id='F47', property='C07', status='open', clause_kind='builtin-opti
               text='optimizer="optimize": z3.Optimize (4.12) returns a non-optimal model in about one run in ten on some tiny problems (reproduced with raw z3, '
                    'no library code involved); the check solves three times and reports a disagreement with the incremental optimiser only when it shows every time [F47]'))
 
+for _p in ('C15', 'C19'):
+    F.append(dict(id='F48' + ('' if _p == 'C15' else 'b'), property=_p, status='open', clause_kind='z3-abort-debug-optimize',
+                  witness=dict(case='corpus/C15/F48.json', observed='ASSERTION VIOLATION File: ../src/ast/ast.cpp Line: 388 UNEXPECTED CODE WAS REACHED. Z3 4.12.6.0 (the process is aborted)'),
+                  text="debug=True together with optimizer='optimize' on some infeasible problems: z3 aborts the process (ASSERTION VIOLATION in ast.cpp) when the unsat core is "
+                       "requested from z3.Optimize; the check sets these configurations aside [F48]"))
+
 F.append(dict(id='F47b', property='C15', status='open', clause_kind='builtin-optimizer-unreliable',
               witness=dict(case='see F47 (C07)'),
               text='optimizer="optimize": z3.Optimize (4.12) returns a non-optimal model in about one run in ten on some tiny problems (raw z3); a configuration '
